@@ -607,7 +607,7 @@ package proxy
 // session ends; nobody else touches the lists.
 // (C32) The route generation a status fetch is stamped with is read together with the routes it uses: the snapshot is taken
 // by the handshake handler itself (and by ApplyLiveConfig / config()), never again later inside the status resolver closure.
-//@ census configSnapshot : only-in (*handshakeSessionHandler).handleHandshake, (*Proxy).ApplyLiveConfig, (*Proxy).config ; props C32
+//@ census configSnapshot : only-in (*handshakeSessionHandler).handleHandshake!, (*Proxy).ApplyLiveConfig, (*Proxy).config ; props C32
 //@ func (*handshakeSessionHandler).handleHandshake$1
 //@   props C32
 //@   at-call ResolveStatusResponseWithGeneration as rs: assert [routes-and-generation-of-the-handshakes-snapshot] arg1 == routeGeneration && ref(arg2) == ref(cfg.Lite.Routes) && len(arg2) == len(cfg.Lite.Routes) && arg5 == handshake
